@@ -115,7 +115,7 @@ def make_watch_cases(tier, seed):
     rng = random.Random(seed * 19 + 7)
     quick = tier != "thorough"
     cases = []
-    for k in range(40 if quick else 400):
+    for k in range(100 if quick else 600):
         exts = rng.choice([None, ["txt"], ["csv", "o"], [".txt"], ["tar.gz"]])
         # sometimes the same path is listed by two input entries with different extensions
         exts2 = rng.choice([None, None, ["gz"], ["o"], ["TXT"]]) if exts is not None else None
@@ -289,7 +289,7 @@ def suite(tier, seed):
         tag = "r%s%d_%d" % (tier[0], seed, os.getpid())
         shards = [("%s_%d" % (tag, s), cases[s::k], "res") for s in range(k)]
         # the watcher cases use real inotify and real time: few at a time
-        shards += [("%s_w%d" % (tag, s), wcases[s::4], "watch") for s in range(4)]
+        shards += [("%s_w%d" % (tag, s), wcases[s::6], "watch") for s in range(6)]
         with cf.ThreadPoolExecutor(NCPU) as ex:
             rs = list(ex.map(run_shard, shards))
         seen = {p: set() for p in PROPS}
